@@ -25,7 +25,7 @@ RULE = ("cases: (a) ill-defined models by construction: self reference, cycles o
         ' Classes added after the seeded rounds: sub-proposition next to a leaf with the same id, generated-id collisions, cross-branch cycles, same id and same child ids with differences one level further down.')
 BUDGET = {"quick": (12, 500, 90), "thorough": (16, 4000, 1200)}
 ILL = ["self-ref", "cycle", "cycle-cross-branch", "deep-ambivalence", "compound-sign-symmetric", "dup-child-by-negation", "dup-child", "dup-child-ref-leaf", "generated-id-collision", "compound-value-twin", "leaf-bounds", "leaf-bounds-twin", "compound-sign", "compound-value",
-       "compound-children", "compound-children-twin", "leaf-vs-compound"]
+       "compound-children", "compound-children-twin", "leaf-vs-compound", "compound-bounds", "compound-compound-child"]
 PYTEST = True     # thorough tier also runs the repository's own tests under these monitors
 MANDATORY = ["judged:accepted=>well-defined", "judged:tree=>accepted", "judged:sharing=>accepted", "contract:AtLeast.errors"] + \
             ["count:ill:" + c for c in ILL] + ["count:ill-rejected", "count:class:tree", "count:class:share-identity",
@@ -214,6 +214,18 @@ def build_ill(cls, rng):
         b1, b2 = rng.choice([tw, twin2])
         return pg.All(pg.Any(pg.AtLeast(1, [puan.variable("x", b1), "y"], variable="S"), "p", variable="B"),
                       pg.Any(pg.AtLeast(1, [puan.variable("x", b2), "y"], variable="S"), "q", variable="C"), variable="A")
+    if cls == "compound-bounds":
+        # same id, sign, value and children on two non-sibling sub-propositions whose own variables carry different bounds
+        b1, b2 = rng.choice([((0, 1), (1, 1)), ((0, 1), (0, 0)), ((1, 1), (0, 0)), ((1, 1), (0, 1))])
+        mk = rng.choice([lambda b: pg.All("a", "b", variable=puan.variable("S", b)), lambda b: pg.AtMost(1, ["a", "b"], variable=puan.variable("S", b)),
+                         lambda b: pg.Any(pg.All("a", "b"), "c", variable=puan.variable("S", b))])
+        return pg.All(pg.Any(mk(b1), "p", variable="B"), pg.Any(mk(b2), "q", variable="C"), variable="A")
+    if cls == "compound-compound-child":
+        # same id, bounds, sign, value and leaf children; the two definitions differ only in a sub-proposition they hold
+        other = rng.choice([lambda: pg.All("x", "y", variable="D"), lambda: pg.Any("x", "y", variable="C2"), lambda: pg.All("x", "z", variable="D")])
+        mk = lambda inner: rng.choice([pg.All, pg.Any])("a", inner, variable="S")
+        k = rng.choice([pg.All, pg.Any])
+        return pg.All(pg.Any(k("a", pg.All("x", "y", variable="C1"), variable="S"), "p", variable="B"), pg.Any(k("a", other(), variable="S"), "q", variable="C"), variable="A")
     if cls == "leaf-vs-compound":
         b = rng.choice([(0, 3), (1, 1), (-1, 1), (0, 0)])
         return pg.All(pg.Any("x", "y", variable="S"), pg.Any(puan.variable("S", b), "q", variable="C"), variable="A")
